@@ -1,0 +1,39 @@
+//go:build verif
+
+// Contracts for the verification machinery in /verif (comment only, no code).
+// Language: /verif/DESIGN.md section 3.1.
+package scheduler
+
+// ================================================================ C09: the partition's reservation counter
+
+//@ func (pc *PartitionContext) incReservationCount()
+//@   props C09
+//@   mode nopanic=off
+//@   assigns pc.reservations
+//@   ensures pc.reservations == old(pc.reservations) + 1
+
+//@ func (pc *PartitionContext) decReservationCount(num int)
+//@   props C09
+//@   mode nopanic=off
+//@   requires num > -4611686018427387904 && num < 4611686018427387904
+//@   assigns pc.reservations
+//@   ensures pc.reservations == old(pc.reservations) - num
+
+//@ global forall p *PartitionContext :: p.reservations < 4611686018427387904 && p.reservations > -4611686018427387904
+
+// the counter is incremented exactly when the application (and with it the node) took the reservation, and the queue is
+// told under the same application id
+//@ func (pc *PartitionContext) reserve(app *objects.Application, node *objects.Node, ask *objects.Allocation)
+//@   props C09
+//@   sweep
+//@   mode nopanic=off
+//@   at[made] call scheduler.PartitionContext.incReservationCount#1: assert app.reservations[ask.allocationKey] != nil && app.reservations[ask.allocationKey].node == node && node.reservations[ask.allocationKey] != nil
+//@   at[queue] call objects.Queue.Reserve#1: assert arg0 == app.queue && arg1 == app.ApplicationID && app.reservations[ask.allocationKey] != nil
+
+// the counter and the queue are decremented by exactly the number of reservations the application gave up (0 or 1)
+//@ func (pc *PartitionContext) unReserve(app *objects.Application, node *objects.Node, ask *objects.Allocation)
+//@   props C09
+//@   sweep
+//@   mode nopanic=off
+//@   at[count] call scheduler.PartitionContext.decReservationCount#1: assert arg1 == num && 0 <= num && num <= 1 && (num == 1 ==> old(ask.allocationKey in app.reservations) && !(ask.allocationKey in app.reservations))
+//@   at[queue] call objects.Queue.UnReserve#1: assert arg0 == app.queue && arg1 == app.ApplicationID && arg2 == num
